@@ -3,7 +3,7 @@ Every model used in a run is counted in Executor.lib_called and reported in the 
 import re
 from fractions import Fraction
 import z3
-from .mirsym import (Agg, EnumV, Ptr, Arr, UNIT, Unsupported, PathDead, is_sym, conc, R, to_z3,
+from .mirsym import (AbsArr, Agg, EnumV, Ptr, Arr, UNIT, Unsupported, PathDead, is_sym, conc, R, to_z3,
                      merge_val, short_type, is_float, z3not)
 
 BAR_FIELDS = {'Open': 0, 'High': 1, 'Low': 2, 'Close': 3, 'Volume': 4}
@@ -175,12 +175,14 @@ def call(ex, fr, c, a):
     if re.match(r'(std|alloc)::vec::from_elem::<f64>', c):
         _note(ex, 'vec::from_elem'); ex.allocs.append((tuple(ex.stack), 'from_elem'))
         n = conc(a[1])
-        if is_sym(n): raise Unsupported('vec![x; n] with symbolic n')
+        if is_sym(n):
+            if getattr(ex, 'abstract_arrays', False): return Agg('Vec', (AbsArr(n),))
+            raise Unsupported('vec![x; n] with symbolic n')
         if n > 4096: raise Unsupported('vec![x; n] with n > 4096 in R')
         return Agg('Vec', (Arr([a[0]] * n),))
     if re.fullmatch(r'Vec::<f64>::into_boxed_slice', c) or c.endswith('::into_boxed_slice'):
         _note(ex, 'Vec::into_boxed_slice'); ex.allocs.append((tuple(ex.stack), 'into_boxed_slice'))
-        return ex.make_box(a[0].f[0].e)
+        return ex.make_box(a[0].f[0] if isinstance(a[0].f[0], AbsArr) else a[0].f[0].e)
     if c == '<Box<[f64]> as Clone>::clone':
         _note(ex, 'Box<[f64]>::clone'); ex.allocs.append((tuple(ex.stack), 'Box<[f64]>::clone'))
         p = _slice_ptr(ex, a[0])
